@@ -28,6 +28,7 @@ func (c *Ctx) Replay(job, wit string, capS int) error {
 	case job == "race-child":
 		RaceChild(&sc, capS)
 	case sc.Mode == "iso":
+		isoBare = sc.Iso.Bare
 		base, before, after, pan := isoRun(-1, 0)
 		if pan != "" {
 			c.fail("panic", sc.witness(), pan)
